@@ -109,6 +109,64 @@ func observe(proto string, v *lib.Val, ops []*lib.Op, mutants []*lib.Val) string
 	return sb.String()
 }
 
+// core: Build's node as Dump + every read form
+func core(n datamodel.Node) string {
+	var d string
+	if err := lib.Safely(func() error { d = lib.Dump(n); return nil }); err != nil {
+		d = "!P"
+	}
+	return "t=" + d + "|r=" + lib.Reads(n)
+}
+
+// observeReset: build v1, Reset() the SAME builder, build v2 with it, then read the FIRST node again.
+// Record: id, "c01r", proto, v1, script1, v2, script2, observation
+// observation = tr=..|b=..|t=..|r=..#rs=<letter>#tr=..|b=..|t=..|r=..#again:t=..|r=..#eq=<T|F|P>
+func observeReset(proto string, ops1, ops2 []*lib.Op) string {
+	nb := lib.BuilderFor(proto)
+	var sb strings.Builder
+	build := func(ops []*lib.Op) datamodel.Node {
+		tr, ok := lib.Exec(nb, ops, false)
+		if !ok {
+			sb.WriteString("tr=" + tr + "|b=-|t=-|r=-")
+			return nil
+		}
+		var n datamodel.Node
+		if err := lib.Safely(func() error { n = nb.Build(); return nil }); err != nil || n == nil {
+			sb.WriteString("tr=" + tr + "|b=P|t=-|r=-")
+			return nil
+		}
+		sb.WriteString("tr=" + tr + "|b=ok|" + core(n))
+		return n
+	}
+	n1 := build(ops1)
+	if n1 == nil {
+		return sb.String()
+	}
+	rerr := lib.Safely(func() error { nb.Reset(); return nil })
+	sb.WriteString("#rs=" + lib.ErrLetter(rerr) + "#")
+	if rerr != nil {
+		return sb.String()
+	}
+	n2 := build(ops2)
+	if n2 == nil {
+		return sb.String()
+	}
+	sb.WriteString("#again:" + core(n1) + "#eq=")
+	var eq bool
+	if err := lib.Safely(func() error { eq = datamodel.DeepEqual(n1, n2); return nil }); err != nil {
+		sb.WriteString("P")
+	} else if eq {
+		sb.WriteString("T")
+	} else {
+		sb.WriteString("F")
+	}
+	return sb.String()
+}
+
+func runReset(out *lib.Out, id, proto string, v1 *lib.Val, ops1 []*lib.Op, v2 *lib.Val, ops2 []*lib.Op) {
+	out.Case(id, "c01r", proto, v1.Text(), lib.ScriptText(ops1), v2.Text(), lib.ScriptText(ops2), observeReset(proto, ops1, ops2))
+}
+
 func runCase(out *lib.Out, id, proto string, v *lib.Val, ops []*lib.Op, mutants []*lib.Val) {
 	ms := make([]string, len(mutants))
 	for i, m := range mutants {
@@ -120,6 +178,26 @@ func runCase(out *lib.Out, id, proto string, v *lib.Val, ops []*lib.Op, mutants 
 func replay(out *lib.Out, path string) {
 	for _, line := range lib.ReadLines(path) {
 		f := strings.Split(line, "\t")
+		if len(f) >= 7 && f[1] == "c01r" {
+			v1, err := lib.ParseVal(f[3])
+			if err != nil {
+				panic(err)
+			}
+			ops1, err := lib.ParseScript(f[4])
+			if err != nil {
+				panic(err)
+			}
+			v2, err := lib.ParseVal(f[5])
+			if err != nil {
+				panic(err)
+			}
+			ops2, err := lib.ParseScript(f[6])
+			if err != nil {
+				panic(err)
+			}
+			runReset(out, f[0], f[2], v1, ops1, v2, ops2)
+			continue
+		}
 		if len(f) < 6 || f[1] != "c01" {
 			continue
 		}
@@ -212,6 +290,30 @@ func main() {
 		runCase(out, next(), "any", lu, lib.DirectScript(lu), []*lib.Val{lib.List(lib.Int(2), u), lib.List(lib.Int(1), lib.Uint(1<<63+1))})
 	}
 
+	{ // Build, Reset the same builder, build something else, read the first node again
+		l3 := lib.List(lib.Int(1), lib.Str("two"), lib.List(lib.Int(3)))
+		l1 := lib.List(lib.Bool(true))
+		l2 := lib.List(lib.Int(8), lib.Int(9))
+		small := func(v *lib.Val) []*lib.Op { o := lib.DirectScript(v); o[0] = &lib.Op{Code: o[0].Code, Hint: 0}; return o }
+		for _, p := range []string{"list", "any"} {
+			runReset(out, next(), p, l3, lib.DirectScript(l3), l1, small(l1))
+			runReset(out, next(), p, l3, lib.DirectScript(l3), l2, lib.DirectScript(l2))
+			runReset(out, next(), p, l1, lib.DirectScript(l1), l3, small(l3))
+			runReset(out, next(), p, lib.List(), lib.DirectScript(lib.List()), l3, lib.DirectScript(l3))
+		}
+		m2 := lib.Map(lib.Entry{K: "a", V: lib.Int(1)}, lib.Entry{K: "b", V: l3})
+		m1 := lib.Map(lib.Entry{K: "a", V: lib.Str("other")})
+		for _, p := range []string{"map", "any"} {
+			runReset(out, next(), p, m2, lib.DirectScript(m2), m1, lib.KeyValueScript(m1))
+			runReset(out, next(), p, m1, lib.KeyValueScript(m1), m2, small(m2))
+		}
+		runReset(out, next(), "any", m2, lib.DirectScript(m2), l1, lib.DirectScript(l1))
+		runReset(out, next(), "any", lib.Int(5), lib.DirectScript(lib.Int(5)), l3, lib.DirectScript(l3))
+		runReset(out, next(), "int", lib.Int(5), lib.DirectScript(lib.Int(5)), lib.Int(-6), lib.DirectScript(lib.Int(-6)))
+		runReset(out, next(), "string", lib.Str("a"), lib.DirectScript(lib.Str("a")), lib.Str("bb"), lib.DirectScript(lib.Str("bb")))
+		runReset(out, next(), "bytes", lib.Bytes("a"), lib.DirectScript(lib.Bytes("a")), lib.Bytes("bb"), lib.DirectScript(lib.Bytes("bb")))
+	}
+
 	// ---- generated: values x scripts
 	cfg := &lib.GenCfg{MaxDepth: 3, MaxWidth: 4, Links: true, UintBeyond: true, BadUTF8: true, NaNInf: true}
 	for i := 0; i < n; i++ {
@@ -244,6 +346,29 @@ func main() {
 			}
 			mutants = append(mutants, rng.Permuted(v))
 			runCase(out, fmt.Sprintf("%s.%d", base, s), proto, v, ops, mutants)
+			// Reset-and-reuse of the builder is a legal way of making the calls (bindnode's Reset
+			// panics: C12's bind_reset_panics; a possibly one-shot bytes node is left to C11)
+			if s == 0 && rng.Chance(35) && proto != "bindmap" && proto != "bindlist" &&
+				!(proto == "bytes" && ops[0].Code == "XN") {
+				v2 := rng.GenVal(cfg, 0)
+				for tries := 0; proto != "any" && (v2.Kind != v.Kind || (v2.Kind == lib.KInt && v2.I.Cmp(lib.Two63) >= 0)) && tries < 2000; tries++ {
+					v2 = rng.GenVal(cfg, 0)
+				}
+				if proto == "any" && rng.Chance(60) { // mostly the same kind: that is where storage could be reused
+					for tries := 0; v2.Kind != v.Kind && tries < 2000; tries++ {
+						v2 = rng.GenVal(cfg, 0)
+					}
+				}
+				if proto == "any" || v2.Kind == v.Kind {
+					ops2 := rng.GenScript(v2, rng.Bool())
+					if rng.Chance(50) && (ops2[0].Code == "BL" || ops2[0].Code == "BM") {
+						ops2[0] = &lib.Op{Code: ops2[0].Code, Hint: int64(rng.Intn(2))} // a hint the old storage could satisfy
+					}
+					if !(proto == "bytes" && ops2[0].Code == "XN") {
+						runReset(out, fmt.Sprintf("%s.r", base), proto, v, ops, v2, ops2)
+					}
+				}
+			}
 		}
 	}
 }
